@@ -1272,6 +1272,21 @@ impl<'c, 'a> Exec<'c, 'a> {
                 if self.cmp_traces("len", &s, &m) {
                     return None;
                 }
+                // the comparing consumers: a sequence equals itself whatever size hint the other side reports, and
+                // differs from itself without its first item (unless there is none)
+                if let Some(got) = self.sut.as_ref().unwrap().iter_cmp() {
+                    let want = [true, true, len == 0, false];
+                    self.ctx.checked();
+                    self.ctx.probe("iterators-compared-with-eq-and-ne");
+                    if got != want {
+                        self.ctx.fail(
+                            "trace:iterator-eq",
+                            &format!("{}:eq", d.name),
+                            format!("into_iter().eq(itself), .eq(itself behind filter), .eq(itself.skip(1)), .ne(itself behind filter) = {got:?}, a vector of {len} colors gives {want:?}"),
+                        );
+                        return None;
+                    }
+                }
                 Some("ok")
             }
             Op::Get { i, past } => {
